@@ -15,8 +15,10 @@ def gen_inputs(tier, rnd):
         spec = V.gen_spec(rnd)
         table = V.gen_table(rnd, spec)
         fault = rnd.random() < 0.35
+        # a quarter of the cases with a validation limit: the modes still differ in presentation only, and every row is produced
+        limit = rnd.randint(0, len(table) + 1) if rnd.random() < 0.25 else None
         for mode in ("yield", "continue", "raise"):
-            yield {"spec": spec, "table": table, "mode": mode, "fault": fault}
+            yield {"spec": spec, "table": table, "mode": mode, "fault": fault, "limit": limit}
 
 
 def strip(o):
@@ -32,8 +34,8 @@ def direct_oracle(inp, obs):
     spec, table, fault = inp["spec"], inp["table"], inp.get("fault", False)
     text = V.encode(spec, table, broken_tail=fault)
     y = obs
-    c = V.run_reader(V.build_cid(spec), spec, text, "continue", None)
-    r = V.run_reader(V.build_cid(spec), spec, text, "raise", None)
+    c = V.run_reader(V.build_cid(spec), spec, text, "continue", inp.get("limit"))
+    r = V.run_reader(V.build_cid(spec), spec, text, "raise", inp.get("limit"))
     ys = [strip(o) for o in y["outs"]]
     if [strip(o) for o in c["outs"]] != [o for o in ys if o[0] == "row"]:
         return "'continue' does not produce exactly the accepted rows of 'yield'"
